@@ -146,9 +146,9 @@ class WeibullFailureModel:
                         tube.quadrature_results["stress_xx"],
                         tube.quadrature_results["stress_yy"],
                         tube.quadrature_results["stress_zz"],
-                        tube.quadrature_results["stress_yz"],
-                        tube.quadrature_results["stress_xz"],
-                        tube.quadrature_results["stress_xy"],
+                        np.sqrt(2.0) * tube.quadrature_results["stress_yz"],
+                        np.sqrt(2.0) * tube.quadrature_results["stress_xz"],
+                        np.sqrt(2.0) * tube.quadrature_results["stress_xy"],
                     )
                 ),
                 axis=-1,
